@@ -194,7 +194,92 @@ class ExtractTemp(ast.NodeTransformer):
         return fn
 
 
-KINDS = {"flip": Flip, "invert": Invert, "kwargs": Kwargs, "aug": Aug, "noise": Noise, "annot": Annot, "inlinetemp": InlineTemp, "extracttemp": ExtractTemp}
+class Comp2Loop(ast.NodeTransformer):
+    """`x = [E for t in X if C]` (one generator, plain name target) -> `x = []` + `for t in X: if C: x.append(E)` (only where x is not read in E/X/C and
+    the comprehension variable names do not clash with other names of the function)"""
+    def visit_FunctionDef(self, fn):
+        self.generic_visit(fn)
+        names = {}
+        for n in ast.walk(fn):
+            if isinstance(n, ast.Name):
+                names[n.id] = names.get(n.id, 0) + 1
+        for holder in ast.walk(fn):
+            for f in ("body", "orelse", "finalbody"):
+                lst = getattr(holder, f, None)
+                if not (isinstance(lst, list) and lst and isinstance(lst[0], ast.stmt)):
+                    continue
+                out = []
+                for st in lst:
+                    if isinstance(st, ast.Assign) and len(st.targets) == 1 and isinstance(st.targets[0], ast.Name) and isinstance(st.value, ast.ListComp) \
+                            and len(st.value.generators) == 1 and not st.value.generators[0].is_async:
+                        g = st.value.generators[0]
+                        x = st.targets[0].id
+                        tn = [n.id for n in ast.walk(g.target) if isinstance(n, ast.Name)]
+                        inside = sum(1 for n in ast.walk(st.value) if isinstance(n, ast.Name) and n.id in tn)
+                        reads_x = any(isinstance(n, ast.Name) and n.id == x for n in ast.walk(st.value))
+                        nested = any(isinstance(n, (ast.ListComp, ast.SetComp, ast.DictComp, ast.GeneratorExp, ast.Lambda)) for n in ast.walk(st.value) if n is not st.value)
+                        if not reads_x and not nested and all(names.get(t, 0) == sum(1 for n in ast.walk(st.value) if isinstance(n, ast.Name) and n.id == t) for t in tn):
+                            app = ast.Expr(value=ast.Call(func=ast.Attribute(value=ast.Name(id=x, ctx=ast.Load()), attr="append", ctx=ast.Load()), args=[st.value.elt], keywords=[]))
+                            body = [app]
+                            for c in reversed(g.ifs):
+                                body = [ast.If(test=c, body=body, orelse=[])]
+                            out.append(ast.copy_location(ast.Assign(targets=[ast.Name(id=x, ctx=ast.Store())], value=ast.List(elts=[], ctx=ast.Load())), st))
+                            out.append(ast.copy_location(ast.For(target=g.target, iter=g.iter, body=body, orelse=[]), st))
+                            continue
+                    out.append(st)
+                setattr(holder, f, out)
+        return fn
+
+
+class SwapIndependent(ast.NodeTransformer):
+    """two adjacent simple assignments `a = <pure expr>` / `b = <pure expr>` that do not mention each other's names are exchanged
+    (rules must not depend on the textual order of independent statements)"""
+    def visit_FunctionDef(self, fn):
+        self.generic_visit(fn)
+        for holder in ast.walk(fn):
+            for f in ("body", "orelse", "finalbody"):
+                lst = getattr(holder, f, None)
+                if not (isinstance(lst, list) and len(lst) > 1 and isinstance(lst[0], ast.stmt)):
+                    continue
+                i = 0
+                while i + 1 < len(lst):
+                    a, b = lst[i], lst[i + 1]
+                    ok = all(isinstance(s_, ast.Assign) and len(s_.targets) == 1 and isinstance(s_.targets[0], ast.Name) and _pure(s_.value) for s_ in (a, b))
+                    if ok:
+                        na = {n.id for n in ast.walk(a) if isinstance(n, ast.Name)}
+                        nb = {n.id for n in ast.walk(b) if isinstance(n, ast.Name)}
+                        if a.targets[0].id not in nb and b.targets[0].id not in na and a.targets[0].id != b.targets[0].id:
+                            lst[i], lst[i + 1] = b, a
+                            i += 2
+                            continue
+                    i += 1
+        return fn
+
+
+class SplitUnpack(ast.NodeTransformer):
+    """`a, b = x, y` with plain names on the left that do not occur on the right -> `a = x` ; `b = y`"""
+    def visit_FunctionDef(self, fn):
+        self.generic_visit(fn)
+        for holder in ast.walk(fn):
+            for f in ("body", "orelse", "finalbody"):
+                lst = getattr(holder, f, None)
+                if not (isinstance(lst, list) and lst and isinstance(lst[0], ast.stmt)):
+                    continue
+                out = []
+                for st in lst:
+                    if isinstance(st, ast.Assign) and len(st.targets) == 1 and isinstance(st.targets[0], ast.Tuple) and isinstance(st.value, ast.Tuple) \
+                            and len(st.targets[0].elts) == len(st.value.elts) and all(isinstance(e, ast.Name) for e in st.targets[0].elts):
+                        tn = {e.id for e in st.targets[0].elts}
+                        if len(tn) == len(st.targets[0].elts) and not any(isinstance(n, ast.Name) and n.id in tn for e in st.value.elts for n in ast.walk(e)):
+                            for t_, v_ in zip(st.targets[0].elts, st.value.elts):
+                                out.append(ast.copy_location(ast.Assign(targets=[t_], value=v_), st))
+                            continue
+                    out.append(st)
+                setattr(holder, f, out)
+        return fn
+
+
+KINDS = {"comp2loop": Comp2Loop, "swapindep": SwapIndependent, "splitunpack": SplitUnpack, "flip": Flip, "invert": Invert, "kwargs": Kwargs, "aug": Aug, "noise": Noise, "annot": Annot, "inlinetemp": InlineTemp, "extracttemp": ExtractTemp}
 
 
 def reshaped(src: str, kind: str) -> str:
